@@ -265,9 +265,28 @@ def wordscale_pair(rng):
     return fin(s1, cx, e + g), fin(s2, cy, e)
 
 
+def gapedge_pair(rng):
+    """same-sign operands whose exponent gap is the largest (or one below the largest) at which the coarser operand can
+    still be aligned within 34 digits (gap = 34 - q1, e.g. 1E+33 against a 34-digit coefficient): the 'exponents alone
+    decide' shortcuts of compare / min / max / total_order sit exactly there; the partner is NOT near-equal in general"""
+    q1 = rng.choice([1, 1, 1, 2, 3, rng.randint(1, 33)]); c1 = coeff(rng, q1)
+    g = 34 - q1 - rng.choice([0, 0, 0, 1]) + rng.choice([0, 0, 0, 0, 1])      # 33, 34, 35 for one digit
+    nd = min(34, q1 + g)
+    kk = rng.random()
+    if kk < 0.5: c2 = rng.randint(10 ** (nd - 1), 10 ** nd - 1)
+    elif kk < 0.7: c2 = min(T34 - 1, max(1, c1 * 10 ** min(g, 34 - q1) + rng.choice([-1, 1]) * rng.choice([1, 10 ** rng.randint(0, 33)])))
+    elif kk < 0.85: c2 = rng.choice([1, 2, 5, 9]) * 10 ** (nd - 1)
+    else: c2 = T34 - 1 - rng.randint(0, 2)
+    e = rng.randint(QMIN, QMAX - g)
+    s = rng.randint(0, 1)
+    return fin(s, c1, e + g), fin(s if rng.random() < 0.9 else 1 - s, c2, e)
+
+
 def cmp_pair(rng):
     k = rng.random()
-    if k < 0.10:
+    if k < 0.07:
+        x, y = gapedge_pair(rng)
+    elif k < 0.15:
         x, y = wordscale_pair(rng)
     elif k < 0.22:      # enumerated cell: (q1, q2, gap) near-equal pair
         q1 = rng.randint(1, 34); c1 = coeff(rng, q1); g = rng.randint(0, 34 - q1)
